@@ -191,6 +191,9 @@ def run_case(case, rng):
         return res
     steps = LOG["steps"]
     LOG["steps"] = []          # later constructions (dense oracle) log elsewhere
+    if steps:
+        res["root_cover"] = {"rows_lt_cols": steps[-1].get("rows_lt_cols"), "cover": steps[-1].get("cover"),
+                             "n_rows": len(steps[-1].get("term_row") or []), "n_cols": len(steps[-1].get("term_col") or [])}
     for rec in steps:
         rec.pop("bigraph", None)
         cov = rec.pop("cover", None)
@@ -211,38 +214,43 @@ def run_case(case, rng):
     # ---- coefficient function of the composed symbolic tensors on a list of operator strings
     prim_idx = {op: i for i, op in enumerate(primary_ops)}
     offs = np.cumsum([0] + [n.n_sets for n in nodes]).tolist()
-    node_tabs = []
-    for inode, (node, mo) in enumerate(zip(nodes, mpo)):
-        local = Model(node.basis_sets, [])
-        tab = {}
-        for idx, ops in np.ndenumerate(mo):
-            for op in ops:
-                split, f = op.split_elementary(local.dof_to_siteidx)
-                key = tuple(prim_idx.get(o, -1) for o in split)
-                if len(node.children) == 0:
-                    full = ((), int(idx[0]), key)
-                else:
-                    full = (tuple(int(i) for i in idx[:-1]), int(idx[-1]), key)
-                tab[full] = tab.get(full, Fraction(0)) + Fraction(float(f))
-        node_tabs.append(tab)
-    bond_dims = [mo.shape[-1] for mo in mpo]
-    res["bond_dims"] = [int(x) for x in bond_dims]
 
-    def coeff_of(s):
-        vecs = [None] * len(nodes)
-        for i, node in enumerate(nodes):
-            own = tuple(s[offs[i]:offs[i + 1]])
-            ch = res["children_idx"][i]
-            v = [Fraction(0)] * bond_dims[i]
-            for (ins, j, key), f in node_tabs[i].items():
-                if key != own:
-                    continue
-                p = f
-                for c, ic in zip(ch, ins):
-                    p = p * vecs[c][ic]
-                v[j] += p
-            vecs[i] = v
-        return vecs[-1][0] if len(vecs[-1]) == 1 else None
+    def make_coeff(mpo_):
+        node_tabs = []
+        for inode, (node, mo) in enumerate(zip(nodes, mpo_)):
+            local = Model(node.basis_sets, [])
+            tab = {}
+            for idx, ops in np.ndenumerate(mo):
+                for op in ops:
+                    split, f = op.split_elementary(local.dof_to_siteidx)
+                    key = tuple(prim_idx.get(o, -1) for o in split)
+                    if len(node.children) == 0:
+                        full = ((), int(idx[0]), key)
+                    else:
+                        full = (tuple(int(i) for i in idx[:-1]), int(idx[-1]), key)
+                    tab[full] = tab.get(full, Fraction(0)) + Fraction(float(f))
+            node_tabs.append(tab)
+        bdims = [int(mo.shape[-1]) for mo in mpo_]
+
+        def coeff_of(s):
+            vecs = [None] * len(nodes)
+            for i, node in enumerate(nodes):
+                own = tuple(s[offs[i]:offs[i + 1]])
+                ch = res["children_idx"][i]
+                v = [Fraction(0)] * bdims[i]
+                for (ins, j, key), f in node_tabs[i].items():
+                    if key != own:
+                        continue
+                    p = f
+                    for c, ic in zip(ch, ins):
+                        p = p * vecs[c][ic]
+                    v[j] += p
+                vecs[i] = v
+            return vecs[-1][0] if len(vecs[-1]) == 1 else None
+        return coeff_of, bdims
+
+    coeff_of, bond_dims = make_coeff(mpo)
+    res["bond_dims"] = bond_dims
 
     strings = [list(r) for r in res["table"]]
     by_site = {}
@@ -270,6 +278,22 @@ def run_case(case, rng):
         c = coeff_of(s)
         cf.append(None if c is None else [c.numerator, c.denominator])
     res["mo_coeff"] = cf
+    # ---- the same construction with algo="qr": the logged factors are the witness of ttno_sound_qr
+    if case.get("qr_sym"):
+        LOG["steps"] = []
+        try:
+            mpo_q, mpoqn_q = st.construct_symbolic_ttno(tree, terms, algo="qr")
+            qsteps = LOG["steps"]
+            LOG["steps"] = []
+            coeff_q, _ = make_coeff(mpo_q)
+            qc = []
+            for s_ in allstr:
+                c = coeff_q(s_)
+                qc.append(None if c is None else [c.numerator, c.denominator.bit_length() - 1])
+            res["qr"] = {"steps": [{k: st_[k] for k in ("trow", "tcol", "factor", "out_ops", "new_table", "new_factor")} for st_ in qsteps],
+                         "mo_coeff": qc}
+        except Exception as e:
+            res["qr"] = {"error": "%s: %s" % (type(e).__name__, e)}
     # ---- dense oracle
     if case.get("dense"):
         d = {}
